@@ -103,6 +103,19 @@ CLAIMS["C20"] = dict(
          "per-instance use; call-graph is name-based (over-approximate callers).",
     technique="who-may-write effect scan over shared state + constructor-provenance + set-order consumer classification")
 
+CLAIMS["C17"] = dict(
+    level="other", engine="pyflow",
+    text="Handler-coverage and effect analysis of SqlalchemyRender: every translating/compiling call of get_exec_params lies "
+         "inside the try, the handlers catch Exception (the renderer's own raise set over the call closure of get_query is "
+         "computed and listed), with fallback disabled only SQLAlchemyError/NotImplementedError can leave (isinstance-guarded "
+         "re-raise or conversion), every raise in the handler is restricted to `not with_failback`, the fallback returns "
+         "str(tree), get_string delegates; no store or mutating call in any renderer function has a receiver derived from a "
+         "parameter (the caller's tree); the documented dialect names are keys of the dialect table. Exhaustive over the "
+         "renderer's functions; which inputs make SQLAlchemy raise is made moot by the handler rule, not enumerated.",
+    note="Assumes exceptions derive from Exception and that SQLAlchemy does not mutate AST objects handed to it as values; "
+         "errors raised by str(tree) on the fallback path belong to C01/C02.",
+    technique="must-be-inside-try + handler coverage lattice + parameter-rooted write-set (effect) analysis")
+
 NA_PENDING = "check under construction in this session; not claimed until its rule module is committed"
 
 
